@@ -1346,4 +1346,280 @@ package lnwire
 //@ func (f *InvalidOnionPayload) Decode
 //@   site call ReadElements nth 0 as layout-dec-0: assert len(arg(1)) == 1 && dyndata(arg(1)[0]) == addr(f.Offset)
 //@
+//@
+//@ // dispatch agreement (msgtypes): T.MsgType() == n and makeEmptyMessage(n) builds a *T
+//@ func (c *Warning) MsgType
+//@   props C10
+//@   ensures result == 1
+//@ func (s *Stfu) MsgType
+//@   props C10
+//@   ensures result == 2
+//@ func (msg *Init) MsgType
+//@   props C10
+//@   ensures result == 16
+//@ func (c *Error) MsgType
+//@   props C10
+//@   ensures result == 17
+//@ func (p *Ping) MsgType
+//@   props C10
+//@   ensures result == 18
+//@ func (p *Pong) MsgType
+//@   props C10
+//@   ensures result == 19
+//@ func (o *OpenChannel) MsgType
+//@   props C10
+//@   ensures result == 32
+//@ func (a *AcceptChannel) MsgType
+//@   props C10
+//@   ensures result == 33
+//@ func (f *FundingCreated) MsgType
+//@   props C10
+//@   ensures result == 34
+//@ func (f *FundingSigned) MsgType
+//@   props C10
+//@   ensures result == 35
+//@ func (c *ChannelReady) MsgType
+//@   props C10
+//@   ensures result == 36
+//@ func (s *Shutdown) MsgType
+//@   props C10
+//@   ensures result == 38
+//@ func (c *ClosingSigned) MsgType
+//@   props C10
+//@   ensures result == 39
+//@ func (c *ClosingComplete) MsgType
+//@   props C10
+//@   ensures result == 40
+//@ func (c *ClosingSig) MsgType
+//@   props C10
+//@   ensures result == 41
+//@ func (dp *DynPropose) MsgType
+//@   props C10
+//@   ensures result == 111
+//@ func (da *DynAck) MsgType
+//@   props C10
+//@   ensures result == 113
+//@ func (dr *DynReject) MsgType
+//@   props C10
+//@   ensures result == 115
+//@ func (dc *DynCommit) MsgType
+//@   props C10
+//@   ensures result == 117
+//@ func (c *UpdateAddHTLC) MsgType
+//@   props C10
+//@   ensures result == 128
+//@ func (c *UpdateFulfillHTLC) MsgType
+//@   props C10
+//@   ensures result == 130
+//@ func (c *UpdateFailHTLC) MsgType
+//@   props C10
+//@   ensures result == 131
+//@ func (c *CommitSig) MsgType
+//@   props C10
+//@   ensures result == 132
+//@ func (c *RevokeAndAck) MsgType
+//@   props C10
+//@   ensures result == 133
+//@ func (c *UpdateFee) MsgType
+//@   props C10
+//@   ensures result == 134
+//@ func (c *UpdateFailMalformedHTLC) MsgType
+//@   props C10
+//@   ensures result == 135
+//@ func (a *ChannelReestablish) MsgType
+//@   props C10
+//@   ensures result == 136
+//@ func (a *ChannelAnnouncement1) MsgType
+//@   props C10
+//@   ensures result == 256
+//@ func (a *NodeAnnouncement1) MsgType
+//@   props C10
+//@   ensures result == 257
+//@ func (a *ChannelUpdate1) MsgType
+//@   props C10
+//@   ensures result == 258
+//@ func (a *AnnounceSignatures1) MsgType
+//@   props C10
+//@   ensures result == 259
+//@ func (a *AnnounceSignatures2) MsgType
+//@   props C10
+//@   ensures result == 260
+//@ func (q *QueryShortChanIDs) MsgType
+//@   props C10
+//@   ensures result == 261
+//@ func (c *ReplyShortChanIDsEnd) MsgType
+//@   props C10
+//@   ensures result == 262
+//@ func (q *QueryChannelRange) MsgType
+//@   props C10
+//@   ensures result == 263
+//@ func (c *ReplyChannelRange) MsgType
+//@   props C10
+//@   ensures result == 264
+//@ func (g *GossipTimestampRange) MsgType
+//@   props C10
+//@   ensures result == 265
+//@ func (c *ChannelAnnouncement2) MsgType
+//@   props C10
+//@   ensures result == 267
+//@ func (n *NodeAnnouncement2) MsgType
+//@   props C10
+//@   ensures result == 269
+//@ func (c *ChannelUpdate2) MsgType
+//@   props C10
+//@   ensures result == 271
+//@ func (o *OnionMessage) MsgType
+//@   props C10
+//@   ensures result == 513
+//@ func (ks *KickoffSig) MsgType
+//@   props C10
+//@   ensures result == 777
+//@ func makeEmptyMessage
+//@   props C10
+//@   ensures msgType == 1 ==> result1 == nil && typeis(result0, *Warning)
+//@   ensures msgType == 2 ==> result1 == nil && typeis(result0, *Stfu)
+//@   ensures msgType == 16 ==> result1 == nil && typeis(result0, *Init)
+//@   ensures msgType == 17 ==> result1 == nil && typeis(result0, *Error)
+//@   ensures msgType == 18 ==> result1 == nil && typeis(result0, *Ping)
+//@   ensures msgType == 19 ==> result1 == nil && typeis(result0, *Pong)
+//@   ensures msgType == 32 ==> result1 == nil && typeis(result0, *OpenChannel)
+//@   ensures msgType == 33 ==> result1 == nil && typeis(result0, *AcceptChannel)
+//@   ensures msgType == 34 ==> result1 == nil && typeis(result0, *FundingCreated)
+//@   ensures msgType == 35 ==> result1 == nil && typeis(result0, *FundingSigned)
+//@   ensures msgType == 36 ==> result1 == nil && typeis(result0, *ChannelReady)
+//@   ensures msgType == 38 ==> result1 == nil && typeis(result0, *Shutdown)
+//@   ensures msgType == 39 ==> result1 == nil && typeis(result0, *ClosingSigned)
+//@   ensures msgType == 40 ==> result1 == nil && typeis(result0, *ClosingComplete)
+//@   ensures msgType == 41 ==> result1 == nil && typeis(result0, *ClosingSig)
+//@   ensures msgType == 111 ==> result1 == nil && typeis(result0, *DynPropose)
+//@   ensures msgType == 113 ==> result1 == nil && typeis(result0, *DynAck)
+//@   ensures msgType == 115 ==> result1 == nil && typeis(result0, *DynReject)
+//@   ensures msgType == 117 ==> result1 == nil && typeis(result0, *DynCommit)
+//@   ensures msgType == 128 ==> result1 == nil && typeis(result0, *UpdateAddHTLC)
+//@   ensures msgType == 130 ==> result1 == nil && typeis(result0, *UpdateFulfillHTLC)
+//@   ensures msgType == 131 ==> result1 == nil && typeis(result0, *UpdateFailHTLC)
+//@   ensures msgType == 132 ==> result1 == nil && typeis(result0, *CommitSig)
+//@   ensures msgType == 133 ==> result1 == nil && typeis(result0, *RevokeAndAck)
+//@   ensures msgType == 134 ==> result1 == nil && typeis(result0, *UpdateFee)
+//@   ensures msgType == 135 ==> result1 == nil && typeis(result0, *UpdateFailMalformedHTLC)
+//@   ensures msgType == 136 ==> result1 == nil && typeis(result0, *ChannelReestablish)
+//@   ensures msgType == 256 ==> result1 == nil && typeis(result0, *ChannelAnnouncement1)
+//@   ensures msgType == 257 ==> result1 == nil && typeis(result0, *NodeAnnouncement1)
+//@   ensures msgType == 258 ==> result1 == nil && typeis(result0, *ChannelUpdate1)
+//@   ensures msgType == 259 ==> result1 == nil && typeis(result0, *AnnounceSignatures1)
+//@   ensures msgType == 260 ==> result1 == nil && typeis(result0, *AnnounceSignatures2)
+//@   ensures msgType == 261 ==> result1 == nil && typeis(result0, *QueryShortChanIDs)
+//@   ensures msgType == 262 ==> result1 == nil && typeis(result0, *ReplyShortChanIDsEnd)
+//@   ensures msgType == 263 ==> result1 == nil && typeis(result0, *QueryChannelRange)
+//@   ensures msgType == 264 ==> result1 == nil && typeis(result0, *ReplyChannelRange)
+//@   ensures msgType == 265 ==> result1 == nil && typeis(result0, *GossipTimestampRange)
+//@   ensures msgType == 267 ==> result1 == nil && typeis(result0, *ChannelAnnouncement2)
+//@   ensures msgType == 269 ==> result1 == nil && typeis(result0, *NodeAnnouncement2)
+//@   ensures msgType == 271 ==> result1 == nil && typeis(result0, *ChannelUpdate2)
+//@   ensures msgType == 513 ==> result1 == nil && typeis(result0, *OnionMessage)
+//@   ensures msgType == 777 ==> result1 == nil && typeis(result0, *KickoffSig)
+//@
+//@ // dispatch agreement (failcodes): T.Code() == n and makeEmptyOnionError(n) builds a *T
+//@ func (f *FailInvalidRealm) Code
+//@   props C10
+//@   ensures result == 32769
+//@ func (f *FailTemporaryNodeFailure) Code
+//@   props C10
+//@   ensures result == 8194
+//@ func (f *FailPermanentNodeFailure) Code
+//@   props C10
+//@   ensures result == 24578
+//@ func (f *FailRequiredNodeFeatureMissing) Code
+//@   props C10
+//@   ensures result == 24579
+//@ func (f *FailInvalidOnionVersion) Code
+//@   props C10
+//@   ensures result == 49156
+//@ func (f *FailInvalidOnionHmac) Code
+//@   props C10
+//@   ensures result == 49157
+//@ func (f *FailInvalidOnionKey) Code
+//@   props C10
+//@   ensures result == 49158
+//@ func (f *FailTemporaryChannelFailure) Code
+//@   props C10
+//@   ensures result == 4103
+//@ func (f *FailPermanentChannelFailure) Code
+//@   props C10
+//@   ensures result == 16392
+//@ func (f *FailRequiredChannelFeatureMissing) Code
+//@   props C10
+//@   ensures result == 16393
+//@ func (f *FailUnknownNextPeer) Code
+//@   props C10
+//@   ensures result == 16394
+//@ func (f *FailAmountBelowMinimum) Code
+//@   props C10
+//@   ensures result == 4107
+//@ func (f *FailFeeInsufficient) Code
+//@   props C10
+//@   ensures result == 4108
+//@ func (f *FailIncorrectCltvExpiry) Code
+//@   props C10
+//@   ensures result == 4109
+//@ func (f *FailExpiryTooSoon) Code
+//@   props C10
+//@   ensures result == 4110
+//@ func (f *FailIncorrectDetails) Code
+//@   props C10
+//@   ensures result == 16399
+//@ func (f *FailIncorrectPaymentAmount) Code
+//@   props C10
+//@   ensures result == 16400
+//@ func (f *FailFinalExpiryTooSoon) Code
+//@   props C10
+//@   ensures result == 17
+//@ func (f *FailFinalIncorrectCltvExpiry) Code
+//@   props C10
+//@   ensures result == 18
+//@ func (f *FailFinalIncorrectHtlcAmount) Code
+//@   props C10
+//@   ensures result == 19
+//@ func (f *FailChannelDisabled) Code
+//@   props C10
+//@   ensures result == 4116
+//@ func (f *FailExpiryTooFar) Code
+//@   props C10
+//@   ensures result == 21
+//@ func (f *InvalidOnionPayload) Code
+//@   props C10
+//@   ensures result == 16406
+//@ func (f *FailMPPTimeout) Code
+//@   props C10
+//@   ensures result == 23
+//@ func (f *FailInvalidBlinding) Code
+//@   props C10
+//@   ensures result == 49176
+//@ func makeEmptyOnionError
+//@   props C10
+//@   ensures code == 32769 ==> result1 == nil && typeis(result0, *FailInvalidRealm)
+//@   ensures code == 8194 ==> result1 == nil && typeis(result0, *FailTemporaryNodeFailure)
+//@   ensures code == 24578 ==> result1 == nil && typeis(result0, *FailPermanentNodeFailure)
+//@   ensures code == 24579 ==> result1 == nil && typeis(result0, *FailRequiredNodeFeatureMissing)
+//@   ensures code == 49156 ==> result1 == nil && typeis(result0, *FailInvalidOnionVersion)
+//@   ensures code == 49157 ==> result1 == nil && typeis(result0, *FailInvalidOnionHmac)
+//@   ensures code == 49158 ==> result1 == nil && typeis(result0, *FailInvalidOnionKey)
+//@   ensures code == 4103 ==> result1 == nil && typeis(result0, *FailTemporaryChannelFailure)
+//@   ensures code == 16392 ==> result1 == nil && typeis(result0, *FailPermanentChannelFailure)
+//@   ensures code == 16393 ==> result1 == nil && typeis(result0, *FailRequiredChannelFeatureMissing)
+//@   ensures code == 16394 ==> result1 == nil && typeis(result0, *FailUnknownNextPeer)
+//@   ensures code == 4107 ==> result1 == nil && typeis(result0, *FailAmountBelowMinimum)
+//@   ensures code == 4108 ==> result1 == nil && typeis(result0, *FailFeeInsufficient)
+//@   ensures code == 4109 ==> result1 == nil && typeis(result0, *FailIncorrectCltvExpiry)
+//@   ensures code == 4110 ==> result1 == nil && typeis(result0, *FailExpiryTooSoon)
+//@   ensures code == 16399 ==> result1 == nil && typeis(result0, *FailIncorrectDetails)
+//@   ensures code == 16400 ==> result1 == nil && typeis(result0, *FailIncorrectPaymentAmount)
+//@   ensures code == 17 ==> result1 == nil && typeis(result0, *FailFinalExpiryTooSoon)
+//@   ensures code == 18 ==> result1 == nil && typeis(result0, *FailFinalIncorrectCltvExpiry)
+//@   ensures code == 19 ==> result1 == nil && typeis(result0, *FailFinalIncorrectHtlcAmount)
+//@   ensures code == 4116 ==> result1 == nil && typeis(result0, *FailChannelDisabled)
+//@   ensures code == 21 ==> result1 == nil && typeis(result0, *FailExpiryTooFar)
+//@   ensures code == 16406 ==> result1 == nil && typeis(result0, *InvalidOnionPayload)
+//@   ensures code == 23 ==> result1 == nil && typeis(result0, *FailMPPTimeout)
+//@   ensures code == 49176 ==> result1 == nil && typeis(result0, *FailInvalidBlinding)
 //@ // ==== END generated per-message layout contracts ====
